@@ -607,6 +607,9 @@ type ReplayResult struct {
 	Output     string
 }
 
+// satLabels: assertion labels with a sat verdict in the instance being replayed.
+var satLabels = map[string]bool{}
+
 // nativeReplay runs the harness natively under go test with the model's values.
 func nativeReplay(js *JobSpec, ps map[string]int64, q *QueryResult, dir string) ReplayResult {
 	os.MkdirAll(dir, 0755)
@@ -648,8 +651,16 @@ func nativeReplay(js *JobSpec, ps map[string]int64, q *QueryResult, dir string) 
 			rr.Summary = "native run fails the same assertion"
 		} else if strings.Contains(so, "ZZ-ASSERT-FAIL ") {
 			i := strings.Index(so, "ZZ-ASSERT-FAIL ")
-			rr.Reproduced = true
-			rr.Summary = "native run fails an earlier assertion: " + strings.SplitN(so[i:], "\n", 2)[0]
+			line := strings.SplitN(so[i:], "\n", 2)[0]
+			lbl := strings.TrimPrefix(line, "ZZ-ASSERT-FAIL ")
+			// an earlier assertion failing natively counts only if the engine also found
+			// that assertion violable in this instance; otherwise engine and native disagree
+			if satLabels[lbl] {
+				rr.Reproduced = true
+				rr.Summary = "native run fails an earlier assertion that is also violated symbolically: " + line
+			} else {
+				rr.Summary = "native run fails a different assertion that the engine proved: " + line
+			}
 		} else if strings.Contains(so, "ZZ-PANIC") {
 			rr.Reproduced = true
 			rr.Summary = "native run panics: " + firstLineWith(so, "ZZ-PANIC")
